@@ -50,6 +50,11 @@ pub fn oracle(tr: &Transition) -> Vec<Violation> {
         ],
         _ => return v,
     };
+    // quick: the eight-worker replays are left to the thorough tier
+    let variants: Vec<_> = variants
+        .into_iter()
+        .filter(|(f, _, _)| THOROUGH.load(Ordering::Relaxed) == 1 || *f != Flavor::Multi(8))
+        .collect();
     for (flavor, order, name) in variants {
         let dir = tr.scratch.fresh("f");
         tr.parent.snap.store(&dir);
@@ -89,7 +94,7 @@ pub fn on_state(st: &hist::HState, scratch: &crate::util::Scratch, srcs: &crate:
     foreign_lock_rider(st, scratch, srcs, &mut out);
     let ids = st.snap.band_ids();
     let newest_complete = ids.last().is_some_and(|b| st.snap.has_tail_file(*b));
-    if ids.len() < 2 || !newest_complete {
+    if ids.len() < 2 || !newest_complete || (THOROUGH.load(Ordering::Relaxed) == 0 && st.depth > 1) {
         return out;
     }
     let mut with_missing = vec![ids[0], 9999];
